@@ -23,10 +23,22 @@
 
    All wakes happen on the simulation thread, so LocalSet tasks always go to the
    LocalSet's LOCAL queue (Shared::schedule: first branch inside RunUntil::poll, second
-   branch -- same thread -- otherwise) and tokio::spawn tasks always to the core queue
-   (Handle::schedule with the core present).  The LocalSet's remote queue and the
-   scheduler's inject queue are only fed from other threads / from outside block_on and
-   stay empty, so REMOTE_FIRST_INTERVAL and global_queue_interval have no effect here.
+   branch -- same thread -- otherwise); its remote queue stays empty and
+   REMOTE_FIRST_INTERVAL has no effect.  A tokio::spawn task woken inside block_on goes
+   to the scheduler's core queue (Handle::schedule with the core present); woken OUTSIDE
+   block_on -- by a processing element's hook, which des runs before the exec
+   (ModuleRef::handle_message: incoming_upstream; exec; incoming_downstream) -- it goes
+   to the scheduler's INJECT queue.  Core::next_task takes from the inject queue first
+   when the scheduler's tick counter (u32, incremented before every lookup, also the
+   failing one that ends the turn) is a multiple of global_queue_interval, else from the
+   core queue first.
+
+   Entry points of des/src/net/runtime/events.rs, all of which run Harness::exec:
+   at_sim_start(stage) = exec(handler.at_sim_start); handle_message = element hooks
+   outside, then exec(handle_message) or, when an element consumed the message,
+   exec(|| {}); async_wakeup = timer wakes outside, then exec(|| {}) (same shape as a
+   consumed message; timers are C05's); at_sim_end = exec(at_sim_end) + block_on(yield_now);
+   restart = fresh runtime + the at_sim_start stages.
 
    [mode]: [Some c] is tokio with cooperative budget c; [None] is the executor without
    cooperative budget in which a yield re-queues at once -- used, with unbounded poll
@@ -54,12 +66,20 @@ Record task := {
   wk : N }.                   (* simulated time at which it was last made runnable *)
 
 Inductive trec :=
+| RStart (now : N)
 | REvent (e : nat) (now : N)
 | RPoll (i : nat) (woken now : N)
 | ROp (i : nat) (now : N)
 | RClose (tag pl pr : N) (lf : bool).
 
-Record st := { tasks : list task; lq : list nat; cq : list nat; trace : list trec }.
+Record st := {
+  tasks : list task;
+  lq : list nat;       (* LocalSet local queue *)
+  cq : list nat;       (* scheduler core queue *)
+  inj : list nat;      (* scheduler inject queue *)
+  stick : N;           (* scheduler tick counter *)
+  gqi : N;             (* global_queue_interval (constant) *)
+  trace : list trec }.
 
 (* what one poll did *)
 Record pinfo := {
@@ -77,21 +97,42 @@ Fixpoint upd {A} (i : nat) (f : A -> A) (l : list A) : list A :=
   end.
 
 Definition upd_task (i : nat) (f : task -> task) (s : st) : st :=
-  {| tasks := upd i f (tasks s); lq := lq s; cq := cq s; trace := trace s |}.
+  {| tasks := upd i f (tasks s); lq := lq s; cq := cq s; inj := inj s; stick := stick s; gqi := gqi s; trace := trace s |}.
 Definition add_trace (r : trec) (s : st) : st :=
-  {| tasks := tasks s; lq := lq s; cq := cq s; trace := r :: trace s |}.
+  {| tasks := tasks s; lq := lq s; cq := cq s; inj := inj s; stick := stick s; gqi := gqi s; trace := r :: trace s |}.
+Definition set_lq (q : list nat) (s : st) : st :=
+  {| tasks := tasks s; lq := q; cq := cq s; inj := inj s; stick := stick s; gqi := gqi s; trace := trace s |}.
+Definition set_cq (q : list nat) (s : st) : st :=
+  {| tasks := tasks s; lq := lq s; cq := q; inj := inj s; stick := stick s; gqi := gqi s; trace := trace s |}.
+Definition set_inj (q : list nat) (s : st) : st :=
+  {| tasks := tasks s; lq := lq s; cq := cq s; inj := q; stick := stick s; gqi := gqi s; trace := trace s |}.
+Definition set_stick (t : N) (s : st) : st :=
+  {| tasks := tasks s; lq := lq s; cq := cq s; inj := inj s; stick := t; gqi := gqi s; trace := trace s |}.
 Definition push (loc : bool) (i : nat) (s : st) : st :=
-  if loc then {| tasks := tasks s; lq := lq s ++ [i]; cq := cq s; trace := trace s |}
-  else {| tasks := tasks s; lq := lq s; cq := cq s ++ [i]; trace := trace s |}.
+  if loc then set_lq (lq s ++ [i]) s else set_cq (cq s ++ [i]) s.
+Definition next_tick (s : st) : N := (stick s + 1) mod 4294967296.
+(* the lookup that finds nothing still advances the tick *)
+Definition bump (s : st) : st := set_stick (next_tick s) s.
+(* LocalSet::next_task (remote queue always empty) / Core::next_task *)
 Definition pop (loc : bool) (s : st) : option (nat * st) :=
   if loc then match lq s with
               | [] => None
-              | i :: r => Some (i, {| tasks := tasks s; lq := r; cq := cq s; trace := trace s |})
+              | i :: r => Some (i, set_lq r s)
               end
-  else match cq s with
-       | [] => None
-       | i :: r => Some (i, {| tasks := tasks s; lq := lq s; cq := r; trace := trace s |})
-       end.
+  else
+    let s' := bump s in
+    if next_tick s mod gqi s =? 0 then
+      match inj s, cq s with
+      | i :: r, _ => Some (i, set_inj r s')
+      | [], i :: r => Some (i, set_cq r s')
+      | [], [] => None
+      end
+    else
+      match cq s, inj s with
+      | i :: r, _ => Some (i, set_cq r s')
+      | [], i :: r => Some (i, set_inj r s')
+      | [], [] => None
+      end.
 
 Definition set_code c (t : task) := {| local := local t; code := c; stat := stat t; inbox := inbox t; jh := jh t; wk := wk t |}.
 Definition set_stat x (t : task) := {| local := local t; code := code t; stat := x; inbox := inbox t; jh := jh t; wk := wk t |}.
@@ -259,7 +300,27 @@ Fixpoint wake_deferred (now : N) (dl : list nat) (s : st) : st :=
   end.
 
 Definition quiescent (s : st) : bool :=
-  match lq s, cq s with [], [] => true | _, _ => false end.
+  match lq s, cq s, inj s with [], [], [] => true | _, _, _ => false end.
+
+(* a processing element's hook (event_start / incoming), run by des BEFORE the exec, outside
+   the runtime: a send wakes a LocalSet task onto the local queue (Shared::schedule, same
+   thread) and a tokio::spawn task onto the inject queue (Handle::schedule without core).
+   Spawning is impossible there (no runtime context). *)
+Definition send_outside (now : N) (t : nat) (s : st) : st :=
+  match get t s with
+  | None => s
+  | Some tk =>
+      let s1 := upd_task t (set_inbox (inbox tk + 1)) s in
+      match stat tk with
+      | BlockedRecv =>
+          let s2 := upd_task t (set_wk now) (upd_task t (set_stat Queued) s1) in
+          if local tk then push true t s2 else set_inj (inj s2 ++ [t]) s2
+      | _ => s1
+      end
+  end.
+Definition do_pre (now : N) (s : st) (a : act) : st :=
+  match a with ASend t => send_outside now t s | Spawn _ => s end.
+Definition pre_hooks (now : N) (pre : list act) (s : st) : st := fold_left (do_pre now) pre s.
 
 (* one Harness::exec under tokio's budgets *)
 Definition exec_event (bl br : nat) (c : N) (now : N) (acts : list act) (s : st)
@@ -275,7 +336,7 @@ Definition weight (t : task) : nat :=
   match code t with Some c => 2 + fold_right (fun o a => opw o + a) 0 c | None => 0 end%nat.
 (* upper bound on the number of polls still possible; used as fuel *)
 Definition measure (s : st) : nat :=
-  (fold_right (fun t a => weight t + a) 0 (tasks s) + length (lq s) + length (cq s))%nat.
+  (fold_right (fun t a => weight t + a) 0 (tasks s) + length (lq s) + length (cq s) + length (inj s))%nat.
 
 (* one unbounded LocalSet tick followed by one unbounded scheduler turn *)
 Definition ideal_round (now : N) (s : st) : st * list pinfo * list pinfo :=
@@ -300,36 +361,56 @@ Definition close (tag : N) (pl pr : nat) (s : st) : st :=
 
 Record budgets := { b_local : nat; b_rt : nat; b_coop : N }.
 
-Definition run_event (b : budgets) (s : st) (e : nat) (now : N) (acts : list act) : st :=
-  let '(s1, p2, p3) := exec_event (b_local b) (b_rt b) (b_coop b) now acts (add_trace (REvent e now) s) in
-  close 4 (length p2) (length p3) s1.
+(* the scheduler turn ends with a lookup that finds nothing (and advances the tick) unless
+   all event_interval iterations polled a task *)
+Definition end_turn (br : nat) (p3 : list pinfo) (s : st) : st :=
+  if (length p3 <? br)%nat then bump s else s.
 
-(* events carry the delay since the previous one *)
-Fixpoint run_events (b : budgets) (s : st) (e : nat) (now : N) (evs : list (N * list act)) : st * N :=
+(* one Harness::exec, with the bookkeeping of the trace and of the tick *)
+Definition run_exec (b : budgets) (tag : N) (now : N) (acts : list act) (s : st) : st :=
+  let '(s1, p2, p3) := exec_event (b_local b) (b_rt b) (b_coop b) now acts s in
+  close tag (length p2) (length p3) (end_turn (b_rt b) p3 s1).
+
+(* a message event: (delay since the previous one, consumed by the element?, actions of the
+   element's incoming hook, actions of handle_message).  A consumed message still runs
+   exec(|| {}) -- ModuleRef::handle_message, the `else` branch. *)
+Definition mevent : Type := N * bool * list act * list act.
+
+Definition run_event (b : budgets) (s : st) (e : nat) (now : N) (consumed : bool) (pre acts : list act) : st :=
+  run_exec b 4 now (if consumed then [] else acts) (pre_hooks now pre (add_trace (REvent e now) s)).
+
+Fixpoint run_events (b : budgets) (s : st) (e : nat) (now : N) (evs : list mevent) : st * N :=
   match evs with
   | [] => (s, now)
-  | (d, acts) :: r => run_events b (run_event b s e (now + d) acts) (S e) (now + d) r
+  | (d, k, pre, acts) :: r => run_events b (run_event b s e (now + d) k pre acts) (S e) (now + d) r
   end.
+
+(* at_sim_start (one stage) at time 0 *)
+Definition run_start (b : budgets) (s : st) (acts : list act) : st :=
+  run_exec b 4 0 acts (add_trace (RStart 0) s).
 
 (* the tear-down (ModuleRef::at_sim_end): exec(at_sim_end) and block_on(yield_now()),
    both at the time of the last event *)
 Definition run_end (b : budgets) (s : st) (now : N) : st :=
   let '(s1, p2, p3) := exec_event (b_local b) (b_rt b) (b_coop b) now [] s in
-  let '(s2, q2, q3) := exec_event (b_local b) (b_rt b) (b_coop b) now [] s1 in
-  close 5 (length p2 + length q2) (length p3 + length q3) s2.
+  let s1' := end_turn (b_rt b) p3 s1 in
+  let '(s2, q2, q3) := exec_event (b_local b) (b_rt b) (b_coop b) now [] s1' in
+  close 5 (length p2 + length q2) (length p3 + length q3) (end_turn (b_rt b) q3 s2).
 
 Definition mk_task (loc : bool) (c : list op) : task :=
   {| local := loc; code := Some c; stat := NotSpawned; inbox := 0; jh := JNone; wk := 0 |}.
-Definition init (ts : list (bool * list op)) : st :=
-  {| tasks := map (fun x => mk_task (fst x) (snd x)) ts; lq := []; cq := []; trace := [] |}.
+Definition init (g : N) (ts : list (bool * list op)) : st :=
+  {| tasks := map (fun x => mk_task (fst x) (snd x)) ts; lq := []; cq := []; inj := []; stick := 0; gqi := g; trace := [] |}.
 
-Definition run_model (b : budgets) (ts : list (bool * list op)) (evs : list (N * list act)) : list trec :=
-  let '(s, now) := run_events b (init ts) O 0 evs in rev (trace (run_end b s now)).
+Definition run_model (b : budgets) (g : N) (ts : list (bool * list op)) (start : list act) (evs : list mevent) : list trec :=
+  let '(s, now) := run_events b (run_start b (init g ts) start) O 0 evs in rev (trace (run_end b s now)).
 
 (* ---- wire format ---- *)
-(* script: B_local B_rt C R  nT (kind len op* )*  (delta len act* )*
-   op = 0 Log | 1 Recv | 2 t Send | 3 t Join | 4 Yield | 5 End;  act = 0 t Spawn | 1 t Send.
-   R (REMOTE_FIRST_INTERVAL) is carried for the record and has no effect (see above). *)
+(* script: B_local B_rt C R G  nT (kind len op* )*  lp(start act* )  (delta kind lp(pre act* ) lp(act* ))*
+   op = 0 Log | 1 Recv | 2 t Send | 3 t Join | 4 Yield | 5 End;  act = 0 t Spawn | 1 t Send;
+   kind odd = the processing element consumes the message.
+   R (REMOTE_FIRST_INTERVAL) is carried for the record and has no effect (see above);
+   G = global_queue_interval. *)
 Definition tid (nt t : N) : nat := N.to_nat (N.min t nt).
 
 Definition dec_op (nt : N) (l : list N) : option (op * list N) :=
@@ -360,14 +441,19 @@ Fixpoint dec_tasks (nt : N) (k : nat) (l : list N) : list (bool * list op) * lis
       ((N.odd kind, decode_all (dec_op nt) blob) :: ts, rest')
   end.
 
-Definition dec_event (nt : N) (l : list N) : option ((N * list act) * list N) :=
+Definition dec_event (nt : N) (l : list N) : option (mevent * list N) :=
   match l with
   | [] => None
-  | d :: r => let '(blob, rest) := take_lp r in Some ((d, decode_all (dec_act nt) blob), rest)
+  | d :: r =>
+      let k := match r with x :: _ => N.odd x | [] => false end in
+      let '(pre, r2) := take_lp (tl r) in
+      let '(blob, rest) := take_lp r2 in
+      Some ((d, k, decode_all (dec_act nt) pre, decode_all (dec_act nt) blob), rest)
   end.
 
 Definition enc_rec (r : trec) : list N :=
   match r with
+  | RStart now => [6; 0; now]
   | REvent e now => [3; N.of_nat e; now]
   | RPoll i w now => [2; N.of_nat i; w; now]
   | ROp i now => [1; N.of_nat i; now]
@@ -376,12 +462,14 @@ Definition enc_rec (r : trec) : list N :=
 
 Definition run (input : list N) : list N :=
   match input with
-  | bl :: br :: c :: _ :: nt :: rest =>
+  | bl :: br :: c :: _ :: g :: nt :: rest =>
       let k := N.to_nat (N.min nt (N.of_nat (length rest))) in
       (* ids are clamped to k: anything >= the table length is out of range *)
       let n := N.of_nat k in
       let '(ts, rest') := dec_tasks n k rest in
-      let evs := decode_all (dec_event n) rest' in
-      flat_map enc_rec (run_model {| b_local := N.to_nat bl; b_rt := N.to_nat br; b_coop := c |} ts evs)
+      let '(start, rest'') := take_lp rest' in
+      let evs := decode_all (dec_event n) rest'' in
+      flat_map enc_rec (run_model {| b_local := N.to_nat bl; b_rt := N.to_nat br; b_coop := c |} g ts
+                                  (decode_all (dec_act n) start) evs)
   | _ => [7]
   end.
